@@ -7,6 +7,7 @@
 From Coq Require Import String List Ascii Bool Arith ZArith Sorted.
 From GP Require Import Base.Sexp Model.Gv Model.Decode Model.Kinds Model.Plugin Model.Pipeline Model.Marshal
      Gen.Structs Proofs.MarshalProofs.
+From GP Require Import Model.NormalForm Proofs.NormalFormProofs.
 Import ListNotations.
 Local Open Scope string_scope.
 
@@ -88,6 +89,27 @@ Example c03_example :
         ("zzz", JBool true)]])])).
 Proof. vm_compute. reflexivity. Qed.
 
+(** THE DOCUMENTED NORMAL FORM.  [nf] (Model/NormalForm.v) describes the normal form directly on the document
+    tree, from the property text, without the typed intermediate pipeline and without the parser or the
+    marshaller; parsing and marshalling yields exactly it (hard errors and marshal failures included), for
+    every document with distinct keys in every mapping.  [nf] is also run against the real library on every
+    generated document (dispatch C03nf). *)
+Theorem parse_marshal_nf : forall d, wf_doc d ->
+  (match parse_doc d with Ok p _ => marshal_json p | Err => None end) = nf d.
+Proof. exact NormalFormProofs.parse_marshal_nf. Qed.
+(** nothing is lost: every unknown key, at the top level and in every command step, is in the normal form with
+    its value unchanged *)
+Theorem nf_keeps_unknown_keys : forall m j,
+  wf_doc (GMap m) -> nf (GMap m) = Some j ->
+  (forall k v, In (k, v) m -> k <> "steps" -> k <> "env" ->
+     aget k (members j) = Some (gv_json v)) /\
+  (forall l, aget "steps" m = Some (GSeq l) ->
+     exists js, aget "steps" (members j) = Some (JArr js) /\
+       Forall2 (fun s sj => forall sm, s = GMap sm -> kind_of_mapping sm = Some KCommand ->
+                  forall k v, In (k, v) sm -> ~ In k command_schema_keys ->
+                    aget k (members sj) = Some (gv_json v)) l js).
+Proof. exact NormalFormProofs.nf_keeps_unknown_keys. Qed.
+
 Print Assumptions inline_friendly_lookup.
 Print Assumptions inline_friendly_nodup.
 Print Assumptions inline_friendly_keys.
@@ -102,3 +124,5 @@ Print Assumptions matrix_unknown_keys_survive.
 Print Assumptions cache_unknown_keys_survive.
 Print Assumptions plugin_shape.
 Print Assumptions plugins_of_mapping_order.
+Print Assumptions parse_marshal_nf.
+Print Assumptions nf_keeps_unknown_keys.
